@@ -134,18 +134,19 @@ func (o *operations) start() {
 		verifhook.Yield("ops.exit", o, 0)
 		o.mu.Lock()
 		defer o.mu.Unlock()
-		// this wil lbe the most recent busy chan
-		close(o.busyCh)
 
-		if o.ops.Len() == 0 || o.isClosed {
+		if o.ops.Len() == 0 {
+			// this wil lbe the most recent busy chan
+			close(o.busyCh)
 			o.busyCh = nil
 
 			return
 		}
 
 		// either a new operation was enqueued while we
-		// were busy, or an operation panicked
-		o.busyCh = make(chan struct{})
+		// were busy, or an operation panicked. Keep the
+		// same busy chan so that GracefulClose keeps waiting
+		// until everything that was accepted has run.
 		go o.start()
 	}()
 
